@@ -59,6 +59,40 @@ def _compile_tracked_array():
 SymTrackedArray = None
 SPSOLVE = npshim.make_spsolve('spsolve')
 
+# ------------------------------------------------------------------------------------------------
+#  which real function bodies a trace executed (evidence: "functions under contract" is measured, not declared).
+#  sys.monitoring PY_START fires once per code object (the callback returns DISABLE) until restart_events().
+
+PKG = os.path.join(os.path.realpath(SRC), 'pyfvtool') + os.sep
+CALLED = set()
+_MON_ON = [False]
+
+
+def _on_py_start(code, offset):
+    fn = code.co_filename
+    if fn.startswith(PKG) or os.path.realpath(fn).startswith(PKG):
+        q = code.co_qualname
+        if not q.endswith(('<module>', '<listcomp>', '<genexpr>', '<dictcomp>', '<setcomp>')):
+            CALLED.add('pyfvtool.%s.%s' % (os.path.basename(fn)[:-3], q))
+    return sys.monitoring.DISABLE
+
+
+def reset_called():
+    """start recording the pyfvtool code objects that get executed from now on"""
+    mon = getattr(sys, 'monitoring', None)
+    if mon is None:
+        return
+    if not _MON_ON[0]:
+        try:
+            mon.use_tool_id(4, 'fvverif')
+        except ValueError:
+            pass
+        mon.register_callback(4, mon.events.PY_START, _on_py_start)
+        mon.set_events(4, mon.events.PY_START)
+        _MON_ON[0] = True
+    CALLED.clear()
+    mon.restart_events()
+
 
 @contextlib.contextmanager
 def installed():
